@@ -159,3 +159,16 @@ Print Assumptions C19_mvcc_strict.
 Theorem C19_mem_key_roundtrip : forall k, mem_decode_key (mem_encode_key k) = Some k.
 Proof. exact mem_decode_encode_key. Qed.
 Print Assumptions C19_mem_key_roundtrip.
+Theorem C19_mem_key_order : forall a b, lex_cmp (mem_encode_key a) (mem_encode_key b) = lex_cmp a b.
+Proof. exact mem_encode_key_order. Qed.
+Print Assumptions C19_mem_key_order.
+Theorem C19_mem_key_injective : forall a b, mem_encode_key a = mem_encode_key b -> a = b.
+Proof. exact mem_encode_key_inj. Qed.
+Print Assumptions C19_mem_key_injective.
+(* decodeKey drops the bytes after the first encoded string: accepted inputs are exactly encoded keys followed by anything *)
+Theorem C19_mem_key_decode_prefix : forall b k, mem_decode_key b = Some k -> exists rest, b = mem_encode_key k ++ rest.
+Proof. exact mem_decode_key_prefix. Qed.
+Print Assumptions C19_mem_key_decode_prefix.
+Theorem C19_mem_key_ignores_suffix : forall k rest, mem_decode_key (mem_encode_key k ++ rest) = Some k.
+Proof. exact mem_decode_key_ignores_suffix. Qed.
+Print Assumptions C19_mem_key_ignores_suffix.
